@@ -398,7 +398,13 @@ def report_domain(ctx, v, path, known_sig):
                                                       or (k != "shm" and os.path.normpath(p).startswith(os.path.normpath(root))))]
         rec = {"a": rec["a"], "d": rec["d"], "step": rec["step"], "outside_root_or_prefix": odd[:6] or [p for p, _ in paths][:6]}
     elif rec and rec.get("a", "").startswith("concept_"):
-        rec = {k: (bytes(x).decode("latin1") if isinstance(x, list) and x and isinstance(x[0], int) else x) for k, x in rec.items()}
+        def text(x):
+            if isinstance(x, list) and x and isinstance(x[0], int):
+                return bytes(x).decode("latin1")
+            if isinstance(x, list) and x and isinstance(x[0], list):
+                return [text(y) for y in x[:12]]
+            return x
+        rec = {k: text(x) for k, x in rec.items()}
     what = (f"domain pair {reset.get('pair')} (prefixes {reset.get('prefix0')!r} / {reset.get('prefix1')!r}, "
             f"same root: {reset.get('same_root')}): observation {rec} under domain {rec.get('d') if rec else '?'} "
             f"violates {clause}")
